@@ -114,6 +114,11 @@ of_status_t	of_2d_parity_release_codec_instance (of_2d_parity_cb_t*	ofcb)
 			}
 			of_free(ofcb->tab_const_term_of_equ);
 		}
+		if (ofcb->tmp_tab_symbols != NULL)
+		{
+			of_free (ofcb->tmp_tab_symbols);
+			ofcb->tmp_tab_symbols = NULL;
+		}
 	}
 #endif
 
@@ -241,6 +246,10 @@ of_status_t	of_2d_parity_set_fec_parameters (of_2d_parity_cb_t*	ofcb,
 			{
 				ofcb->tab_nb_equ_for_repair[seq - ofcb->nb_source_symbols]++;
 			}
+		}
+		/* work table of the ML decoder (same as in the LDPC-Staircase codec) */
+		if ((ofcb->tmp_tab_symbols = (void**) of_malloc (sizeof(void*) * ofcb->nb_total_symbols)) == NULL) {
+			goto no_mem;
 		}
 	}
 #endif //OF_USE_DECODER
